@@ -240,12 +240,25 @@ Qed.
 Definition cer_ok (e: bytes) : Prop :=
   exists n, parses e n /\ forall f, (length e <= f)%nat -> cer_shape f n = true.
 
-Lemma cer_ok_prim c num contents : N.of_nat (length contents) < max_len -> (length contents <= 1001)%nat ->
+(* a UNIVERSAL tag number of a string type: where the untyped shape check recognises a string *)
+Definition ustr (c: tclass) (num: N) : bool := N.eqb (class_no c) 0 && string_number num.
+
+Lemma cer_shape_prim f c num contents raw :
+  cer_shape (S f) (Prim c num contents raw) = if ustr c num then Nat.leb (length contents) 1000 else true.
+Proof. reflexivity. Qed.
+
+Lemma cer_shape_cons f c num indef kids raw :
+  cer_shape (S f) (Cons c num indef kids raw) =
+  (indef && forallb (cer_shape f) kids && (if ustr c num then cer_segments kids else true))%bool.
+Proof. reflexivity. Qed.
+
+Lemma cer_ok_prim c num contents : N.of_nat (length contents) < max_len ->
+  (ustr c num = true -> (length contents <= 1000)%nat) ->
   cer_ok (tlv c false num contents).
 Proof.
   intros Hl Hs. exists (Prim c num contents (tlv c false num contents)). split; [apply parses_prim; exact Hl|].
   intros f Hf. pose proof (tlv_length c false num contents). destruct f as [|f]; [lia|].
-  cbn [cer_shape]. apply Nat.leb_le. exact Hs.
+  rewrite cer_shape_prim. destruct (ustr c num); [|reflexivity]. apply Nat.leb_le. apply Hs. reflexivity.
 Qed.
 
 Lemma cer_ok_kids : forall es, Forall cer_ok es ->
@@ -259,23 +272,74 @@ Proof.
     rewrite Hn by lia. rewrite Hs by lia. reflexivity.
 Qed.
 
-Lemma cer_ok_itlv c num es : Forall cer_ok es -> Forall nz_head es -> cer_ok (itlv c num (concat es)).
+Lemma itlv_length c num contents : (4 + length contents <= length (itlv c num contents))%nat.
+Proof. unfold itlv. rewrite !app_length. pose proof (ident_length_pos c true num). cbn [length]. lia. Qed.
+
+(* an indefinite constructed encoding that is not recognisable as a string *)
+Lemma cer_ok_itlv c num es : Forall cer_ok es -> Forall nz_head es -> ustr c num = false ->
+  cer_ok (itlv c num (concat es)).
 Proof.
-  intros Hes Hnz. destruct (cer_ok_kids es Hes) as (kids & Hk & Hs).
+  intros Hes Hnz Hu. destruct (cer_ok_kids es Hes) as (kids & Hk & Hs).
   exists (Cons c num true kids (itlv c num (concat es))). split; [apply parses_cons_indef; assumption|].
-  intros f Hf.
-  assert (Hl: (4 + length (concat es) <= length (itlv c num (concat es)))%nat).
-  { unfold itlv. rewrite !app_length. pose proof (ident_length_pos c true num). cbn [length]. lia. }
-  destruct f as [|f]; [lia|]. cbn [cer_shape andb]. apply Hs. lia.
+  intros f Hf. pose proof (itlv_length c num (concat es)) as Hl.
+  destruct f as [|f]; [lia|]. rewrite cer_shape_cons, Hu, Hs by lia. reflexivity.
 Qed.
 
-Lemma cer_ok_wrap : forall r inner, cer_ok inner -> nz_head inner -> cer_ok (fold_left (wrap_step true) r inner).
+(* 9.2: a run of full 1000-octet segments and a last, non-empty one *)
+Fixpoint seg_ok (ps: list bytes) : bool :=
+  match ps with
+  | [] => false
+  | [p] => Nat.leb 1 (length p) && Nat.leb (length p) 1000
+  | p :: r => Nat.eqb (length p) 1000 && seg_ok r
+  end.
+
+Lemma cer_segments_pieces n : forall ps, cer_segments (map (piece_node n) ps) = seg_ok ps.
 Proof.
-  induction r as [|t r IH]; intros inner Hc Hz; [exact Hc|].
-  cbn [fold_left]. apply IH.
+  induction ps as [|p ps IH]; [reflexivity|]. destruct ps as [|q r]; [reflexivity|].
+  cbn [map] in *.
+  change (cer_segments (piece_node n p :: piece_node n q :: map (piece_node n) r))
+    with (Nat.eqb (length p) 1000 && cer_segments (piece_node n q :: map (piece_node n) r))%bool.
+  rewrite IH. reflexivity.
+Qed.
+
+Lemma cer_shape_pieces n f : forall ps,
+  (string_number n = true -> Forall (fun p => (length p <= 1000)%nat) ps) ->
+  forallb (cer_shape (S f)) (map (piece_node n) ps) = true.
+Proof.
+  intros ps H. induction ps as [|p ps IH]; [reflexivity|].
+  cbn [map forallb]. unfold piece_node at 1. rewrite cer_shape_prim.
+  assert (Hp: (if ustr Univ n then Nat.leb (length p) 1000 else true) = true).
+  { unfold ustr. cbn [class_no N.eqb andb]. destruct (string_number n) eqn:E; [|reflexivity].
+    specialize (H eq_refl). inversion H; subst. apply Nat.leb_le. assumption. }
+  rewrite Hp. cbn [andb]. apply IH. intros E. specialize (H E). inversion H; subst. assumption.
+Qed.
+
+(* an indefinite constructed string made of primitive segments *)
+Lemma cer_ok_itlv_pieces c num n ps : n <> 0 ->
+  Forall (fun p => N.of_nat (length p) < max_len) ps ->
+  (string_number n = true -> Forall (fun p => (length p <= 1000)%nat) ps) ->
+  (ustr c num = true -> seg_ok ps = true) ->
+  cer_ok (itlv c num (concat (map (tlv Univ false n) ps))).
+Proof.
+  intros Hn Hb Hsmall Hseg.
+  exists (Cons c num true (map (piece_node n) ps) (itlv c num (concat (map (tlv Univ false n) ps)))).
+  split; [apply parses_cons_indef; [apply pieces_parse; exact Hb|apply pieces_nz; exact Hn]|].
+  intros f Hf. pose proof (itlv_length c num (concat (map (tlv Univ false n) ps))) as Hl.
+  destruct f as [|[|f]]; [lia|lia|]. rewrite cer_shape_cons, (cer_shape_pieces n f ps Hsmall), cer_segments_pieces.
+  cbn [andb]. destruct (ustr c num); [apply Hseg; reflexivity|reflexivity].
+Qed.
+
+(* EXPLICIT wrappers whose tags are not UNIVERSAL string tags (EXPLICIT tags never are UNIVERSAL;
+   an IMPLICIT tag over an EXPLICIT one could be) *)
+Lemma cer_ok_wrap : forall r inner, Forall (fun t => ustr (tcls t) (tnum t) = false) r ->
+  cer_ok inner -> nz_head inner -> cer_ok (fold_left (wrap_step true) r inner).
+Proof.
+  induction r as [|t r IH]; intros inner Hr Hc Hz; [exact Hc|].
+  inversion Hr as [|? ? Ht Hr']; subst.
+  cbn [fold_left]. apply IH; [exact Hr'| |].
   - unfold wrap_step. rewrite ctlv_true.
     replace inner with (concat [inner]) by (cbn [concat]; apply app_nil_r).
-    apply cer_ok_itlv; constructor; [exact Hc|constructor|exact Hz|constructor].
+    apply cer_ok_itlv; [constructor; [exact Hc|constructor]|constructor; [exact Hz|constructor]|exact Ht].
   - unfold wrap_step, ctlv. apply ident_nz_head. auto.
 Qed.
 
